@@ -40,7 +40,7 @@ def access_index(ctx):
         return ctx.cache["state_index"]
     idx = {}
     for b in ctx.facts.mir:
-        if b["crate"] != VISITOR_CRATE or not is_visitor_body(b):
+        if b["crate"] != VISITOR_CRATE or not is_visitor_body(b) or b.get("analysed_inlined"):
             continue
         fl = flow_of(ctx, b)
         for blk in b["blocks"]:
